@@ -187,3 +187,52 @@ Definition run_any (close_on_timeout : bool) (sh : shell) (q : req) (marker : st
     | (inr _, sh1) => (fresh, sh1, 2, ViaSubprocess)      (* suppressed; the command runs again *)
     end
   else (fresh, sh, 1, ViaSubprocess).
+
+(* ---------------------------------------------------------------- what a command can do to the shell that runs it *)
+(* The persistent shell is a process with a working directory and an environment.  A command line written to
+   it BARE (as _build_shell_command did when neither environment nor workdir was given) is executed by that
+   process itself: cd / export / exit act on it.  WRAPPED in a child `sh -c` (what the code does now, always)
+   they act on a copy.  [SExt] is any external, stateless command with its output and status. *)
+Inductive scmd := SCd (d : string) | SPwd | SExport (k v : string) | SEcho (k : string) | SExit (n : N)
+                | SExt (out : string) (code : N).
+Record sstate := { s_cwd : string; s_env : list (string * string); s_alive : bool }.
+Inductive smode := Bare | Wrapped.
+
+Fixpoint lookup (k : string) (e : list (string * string)) : string :=
+  match e with
+  | [] => EmptyString
+  | (k', v) :: r => if String.eqb k k' then v else lookup k r
+  end.
+
+(* output and status of the command in a process whose state is [st] *)
+Definition cmd_out (st : sstate) (c : scmd) : string * N :=
+  match c with
+  | SCd _ | SExport _ _ => (EmptyString, 0%N)
+  | SPwd => (s_cwd st ++ String nl EmptyString, 0%N)
+  | SEcho k => ("[" ++ lookup k (s_env st) ++ "]" ++ String nl EmptyString, 0%N)     (* echo "[$K]" *)
+  | SExit n => (EmptyString, n)
+  | SExt o c => (o, c)
+  end.
+
+(* its effect on the process that executes it *)
+Definition cmd_effect (st : sstate) (c : scmd) : sstate :=
+  match c with
+  | SCd d => {| s_cwd := d; s_env := s_env st; s_alive := s_alive st |}
+  | SExport k v => {| s_cwd := s_cwd st; s_env := (k, v) :: s_env st; s_alive := s_alive st |}
+  | SExit _ => {| s_cwd := s_cwd st; s_env := s_env st; s_alive := false |}
+  | _ => st
+  end.
+
+(* a sequence of run() calls on one location; [st0] is the state a new shell (and a fresh process) starts
+   from; a dead shell is replaced by a new one (get_shell).  Returned: (strip output, status) per command. *)
+Fixpoint run_state (m : smode) (st0 st : sstate) (cs : list scmd) : list (string * N) :=
+  match cs with
+  | [] => []
+  | c :: r =>
+      let cur := if s_alive st then st else st0 in
+      (py_strip (fst (cmd_out cur c)), snd (cmd_out cur c))
+      :: run_state m st0 (match m with Wrapped => cur | Bare => cmd_effect cur c end) r
+  end.
+
+Definition fresh_results (st0 : sstate) (cs : list scmd) : list (string * N) :=
+  map (fun c => (py_strip (fst (cmd_out st0 c)), snd (cmd_out st0 c))) cs.
